@@ -30,12 +30,16 @@ from ..model import ANALYSIS, DEX, AnalysisError, walk_no_nested, calls_in
 from ..modeleval import Interp, Env, Pt, Obj, PyModel, PyRaise, NotModelled, Sink, clone_func, Lin
 from ..order import weak_orderings, describe
 
+OWN_MUTATION_ADEQUACY = True  # mutation_adequacy() below runs rule-specific breaking and benign edits
 LENIENT = ("loguru.logger", "logger", "logging")
 
 
 class Token(PyModel):
     def __init__(self, name):
         self.name = name
+
+    def get_name(self):
+        return self.name
 
     def __repr__(self):
         return "<%s>" % self.name
@@ -123,6 +127,22 @@ def check_guard(sink, repo, m):
     for d, g in other:
         sink.finding("overlap-guard", ge, "order %s: %s" % (d, g),
                      "get_exception(a, b) %s for %s" % (g, d), node=ge.node)
+    # ---- the entry reports the range it was built from (ExceptionAnalysis.get()) ------------
+    it = Interp(repo, lenient=LENIENT)
+    S, E = Pt("s", 10), Pt("e", 20)
+    tab, entries = _table(it, exc_cls, [(S, E)])
+    ea = m.func("ExceptionAnalysis.get")
+    sink.analysed(ea)
+    try:
+        d = it.call(it.getattr(entries[0], "get"), [])
+    except PyRaise as e:
+        d = "raises %s" % e
+    okr = isinstance(d, dict) and d.get("start") is S and d.get("end") is E
+    sink.count("entry_ranges")
+    sink.check("entry-range", "ExceptionAnalysis.get()", okr, ea,
+               "entry built from [s, e] reports start=%s end=%s" % ((getattr(d.get("start"), "name", d.get("start")), getattr(d.get("end"), "name", d.get("end"))) if isinstance(d, dict) else (d, "")),
+               "an ExceptionAnalysis built from the try range [s, e] reports %r as its range" % (d,), node=ea.node,
+               detail="entry reports start=s, end=e")
     # ---- first match wins, search continues past a rejected entry -------------
     for o in _orderings():
         p = _pts(o)
@@ -521,11 +541,15 @@ def mutation_adequacy(ctx, repo):
 def run(ctx):
     ctx.explanation = __doc__
     repo = ctx.repo
-    core(ctx, repo)
+    try:
+        core(ctx, repo)
+    except PyRaise as e:
+        raise AnalysisError("model evaluation raised %s outside a decided clause" % e)
     ctx.floor("orderings", 26)
     ctx.floor("first_match_cases", 52)
     ctx.floor("call_sites", 1)
     ctx.floor("try_items", 1)
+    ctx.floor("entry_ranges", 1)
     ctx.assume("try ranges and basic blocks are aligned on instruction boundaries, so byte-interval overlap "
                "is equivalent to 'the block contains an instruction covered by the range'")
     ctx.note("not decided: leaders from try starts/handlers (C10), the handler *blocks* attached to an entry, "
